@@ -719,7 +719,61 @@ fn failing_overflow(ctx: &mut Ctx) {
     }
 }
 
+/// zero-sized elements: the capacity is `usize::MAX` and cannot grow — `generic_grow_amortized` / `_exact` have a
+/// branch of their own for that (`Err(capacity_overflow)`), reached by `reserve(usize::MAX)` on a non-empty vector;
+/// and the `into_slice_ptr` branch of the exclusive-borrow vectors (`into_boxed_slice`).  By counts.
+fn failing_zst(ctx: &mut Ctx) {
+    macro_rules! zst_case {
+        ($name:literal, $make:expr) => {{
+            for len in 1..=3usize {
+                zreset();
+                let mut bump: Bump<Global, S1U> = Bump::new();
+                let _ = &mut bump;
+                {
+                    let mut v = $make(&mut bump);
+                    for _ in 0..len {
+                        v.push(Z::make(0));
+                    }
+                    ctx.oracle_checks += 1;
+                    *ctx.op_hist.entry(format!("zst-overflow:{}", $name)).or_insert(0) += 1;
+                    let e1 = v.try_reserve(usize::MAX).is_err();
+                    let e2 = v.try_reserve_exact(usize::MAX).is_err();
+                    let p1 = catch_unwind(AssertUnwindSafe(|| v.reserve(usize::MAX))).map_err(|p| panic_text(&p));
+                    let p2 = catch_unwind(AssertUnwindSafe(|| v.reserve_exact(usize::MAX))).map_err(|p| panic_text(&p));
+                    let ok_msg = |r: &Result<(), String>| matches!(r, Err(m) if m.contains("capacity overflow"));
+                    let (c, d, _) = zcounts();
+                    if !e1 || !e2 || !ok_msg(&p1) || !ok_msg(&p2) || v.len() != len || v.capacity() != usize::MAX || c != len as u64 || d != 0 {
+                        ctx.oracle("C07", format!("{}<zero-sized> len={len}: reserve(usize::MAX): try_reserve Err={e1} try_reserve_exact Err={e2} reserve -> {:?} reserve_exact -> {:?}; len {} cap {}; {c} made {d} dropped", $name, p1, p2, v.len(), v.capacity()));
+                    }
+                    let b = v.into_boxed_slice();
+                    if b.len() != len {
+                        ctx.oracle("C08", format!("{}<zero-sized> len={len}: into_boxed_slice has {} elements", $name, b.len()));
+                    }
+                    drop(b);
+                }
+                let (c, d, st) = zcounts();
+                if c != d + st || d != len as u64 {
+                    ctx.oracle("C06", format!("{}<zero-sized> len={len}: after reserve(usize::MAX) attempts and into_boxed_slice: {c} made, {d} destructor calls", $name));
+                }
+            }
+        }};
+    }
+    fn mk_bump<'a>(b: &'a mut Bump<Global, S1U>) -> BumpVec<Z, &'a Bump<Global, S1U>> {
+        BumpVec::new_in(&*b)
+    }
+    fn mk_mut<'a>(b: &'a mut Bump<Global, S1U>) -> MutBumpVec<Z, &'a mut Bump<Global, S1U>> {
+        MutBumpVec::new_in(b)
+    }
+    fn mk_rev<'a>(b: &'a mut Bump<Global, S1U>) -> MutBumpVecRev<Z, &'a mut Bump<Global, S1U>> {
+        MutBumpVecRev::new_in(b)
+    }
+    zst_case!("BumpVec", mk_bump);
+    zst_case!("MutBumpVec", mk_mut);
+    zst_case!("MutBumpVecRev", mk_rev);
+}
+
 pub fn run_failing_profile(ctx: &mut Ctx, budget: usize) {
+    failing_zst(ctx);
     failing_overflow(ctx);
     failing_splice(ctx);
     let rounds = budget.max(1);
